@@ -34,7 +34,9 @@ def plan_st(draw, tier):
                              "LinTS"], arms))
     nj = draw(st.sampled_from([1, 1, 1, 2, 3]))
     cfg = {"arms": arms, "lp": lp,
-           "np": ["LSHNearest", {"n_dimensions": draw(st.integers(1, 6)), "n_tables": draw(st.integers(1, 4))}],
+           "np": ["LSHNearest", {"n_dimensions": draw(st.sampled_from([1, 2, 3, 4, 5, 6, 1, 2, 3, 4, 5, 6, 8, 16, 31,
+                                                                       32, 33, 40, 52, 53, 54, 64])),
+                                 "n_tables": draw(st.integers(1, 4))}],
            "seed": draw(st.integers(0, 2 ** 20)), "n_jobs": nj, "backend": "threading" if nj > 1 else None,
            "arm_kind": kind}
     h = gen.History(draw, cfg, grid="int", d=draw(st.integers(1, 5)), max_rows=8, exact_only=True)
